@@ -30,7 +30,7 @@ CLAIMED = {
  "C05": dict(cat="proof", design="§4 C05",
    text="Contract proof (CBMC, loop-free, full 64-bit operand domain) on the real text of the normalisation glue that symengine adds on top of GMP: "
         "Integer::divint/rdiv/powint/pow_negint/neg, Rational::from_mpq (both overloads)/from_two_ints (both)/is_canonical and the inline "
-        "addrat/subrat/rsubrat/mulrat/divrat/rdivrat/powrat, Complex::from_mpq/from_two_rats/from_two_nums/is_canonical, against the assumed GMP contracts: "
+        "addrat/subrat/rsubrat/mulrat/divrat/rdivrat/powrat, Complex::from_mpq/from_two_rats/from_two_nums/is_canonical and Complex::powcomp (imaginary base: q^n times i^(n mod 4) for every exponent sign), against the assumed GMP contracts: "
         "results are normalised (lowest terms, positive denominator, Integer iff denominator 1, real iff imaginary part 0), x/0 is zoo and 0/0 nan, "
         "0**negative is zoo, and every GMP precondition (non-zero denominator/divisor) is discharged at its call site. Exact *values* of the results are "
         "checked only as a bounded stand-in (operands |x| <= 12, table arithmetic) and are not counted as proved. The limb arithmetic itself is GMP's and is assumed.",
